@@ -35,12 +35,18 @@ impl<'a> Remote<'a> {
     pub fn schedule(&self) {
         instrument!(compio_log::Level::TRACE, "Remote::schedule", id = ?self.header().id);
 
+        // Register before touching the state. If `start_scheduling` below comes before
+        // the executor's `set_dropped`, the executor is guaranteed to see this count
+        // in `wait_for_scheduling`; if it comes after, we see the task cancelled and
+        // never touch `Shared`.
+        self.header().schedulers.fetch_add(1, Ordering::Relaxed);
+
         let state = self.header().state.start_scheduling();
 
         trace!(?state);
 
         if state.is_scheduled() || state.is_completed() || state.is_cancelled() {
-            self.header().state.finish_scheduling();
+            self.finish_scheduling();
             return;
         }
 
@@ -50,7 +56,7 @@ impl<'a> Remote<'a> {
         compio_log::verif::point("exec.remote.load_shared", self.ptr.as_ptr() as u64, 0);
         let Some(shared) = (unsafe { self.header().shared.load(Ordering::Acquire).as_ref() })
         else {
-            self.header().state.finish_scheduling();
+            self.finish_scheduling();
             return;
         };
 
@@ -75,7 +81,7 @@ impl<'a> Remote<'a> {
                 #[cfg(compio_verif)]
                 compio_log::verif::point("exec.remote.unreserve", self.ptr.as_ptr() as u64, 0);
                 shared.pending.fetch_sub(1, Ordering::Release);
-                self.header().state.finish_scheduling();
+                self.finish_scheduling();
                 return;
             } else {
                 #[cfg(compio_verif)]
@@ -93,7 +99,13 @@ impl<'a> Remote<'a> {
 
         #[cfg(compio_verif)]
         compio_log::verif::point("exec.remote.done", self.ptr.as_ptr() as u64, 0);
+        self.finish_scheduling();
+    }
+
+    /// Leave `schedule`: nothing of `Shared` may be used after this.
+    fn finish_scheduling(&self) {
         self.header().state.finish_scheduling();
+        self.header().schedulers.fetch_sub(1, Ordering::Release);
     }
 
     pub unsafe fn poll<T>(&self, cx: &mut Context<'_>) -> Poll<Option<PanicResult<T>>> {
